@@ -46,8 +46,16 @@ class CallMixin:
         if isinstance(f, TNode) and f.kind == "$Wrapper":
             return TNode("$Wrap", {"nodes": args[0] if args else Cst(None), "via": f}, self.site_of(node, fr))
         if isinstance(f, TypeOf):
-            # type(node)(**fields): reflective reconstruction
-            raise AnalysisError("reflective reconstruction type(node)(...) is analysed by a dedicated rule")
+            # type(node)(**fields): reflective reconstruction of a user node of one known kind
+            u = f.node
+            if isinstance(u, UNode) and len(u.kinds) == 1 and not args:
+                kind = next(iter(u.kinds))
+                t = TNode(kind, dict(kwargs), self.site_of(node, fr))
+                t.func = fr.where() if fr else "?"
+                t.rebuilt_from = u
+                self.constructed.append(t)
+                return t
+            raise AnalysisError("reflective reconstruction type(node)(...) of a node of unknown kind")
         raise AnalysisError(f"call of {f!r} at {self.cur_site}")
 
     def site_of(self, node, fr):
@@ -259,6 +267,15 @@ class CallMixin:
                 self.holes.append(h)
                 return h
             raise AnalysisError(f"unparser generator yields {v!r}")
+        if self.mode == "exprcopy":
+            if is_none(v):
+                return Cst(None)
+            from .vals import Transf
+
+            t = Transf(self.expr_nsp, v, self.site_of(node, fr))
+            self.transfs.append(t)
+            self.yields.append(("expr", v, t))
+            return t
         lw = Lowered(v)
         self.lowered.append(lw)
         self.yields.append(("stmt", v, lw))
@@ -350,6 +367,10 @@ class CallMixin:
 
     def bi_hasattr(self, args, kwargs, node, fr):
         v, n = args
+        if isinstance(v, UNode) and isinstance(n, Cst):
+            from .reference import asdl as _asdl
+
+            return Cst(all(_asdl.field_info(k, n.value) is not None for k in v.kinds))
         if isinstance(v, Obj) and isinstance(n, Cst):
             if n.value in v.attrs:
                 return Cst(True)
@@ -555,7 +576,7 @@ class CallMixin:
                 prefix_ok = all(not isinstance(x, (Rep, Splice)) for x in lst.items[:i]) if i >= 0 else False
                 if i == 0 or prefix_ok:
                     lst.items.insert(i, args[1])
-                    self.log_append(lst, args[1])
+                    self.log_append(lst, args[1], front=True)
                     return Cst(None)
             if isinstance(idx, Sym):
                 item = TNode("$InsertAt", {"index": idx, "value": args[1]}, self.cur_site)
